@@ -292,6 +292,9 @@ func (n *Note) WithCode(code cbc.Code) *Note {
 //
 // For a more complete comparison, use Equals.
 func (n *Note) SameAs(n2 *Note) bool {
+	if n == nil || n2 == nil {
+		return n == n2
+	}
 	return n.Key == n2.Key &&
 		n.Code == n2.Code &&
 		n.Src == n2.Src
@@ -299,6 +302,9 @@ func (n *Note) SameAs(n2 *Note) bool {
 
 // Equals returns true if the provided note is the same as the current one.
 func (n *Note) Equals(n2 *Note) bool {
+	if n == nil || n2 == nil {
+		return n == n2
+	}
 	return n.Key == n2.Key &&
 		n.Code == n2.Code &&
 		n.Src == n2.Src &&
@@ -322,7 +328,7 @@ func (v *validateNotes) Validate(value any) error {
 		return nil
 	}
 	for _, n := range notes {
-		if n.Key.In(v.key) {
+		if n != nil && n.Key.In(v.key) {
 			return nil // match found, this is good
 		}
 	}
